@@ -87,6 +87,11 @@ CLAIMS = {
    "Decides on every run that no password, API key or session token flows from its sources to any log/history/status/stdout/stderr sink on any path through the module, including failure paths where a transport error embeds the request URL; sanitisers are recognised by their pattern and replacement. 'other' rather than 'proof' because one genuine leak (API key in the error of httpPrefixGetLog) is pinned by the unedited test-suite and recorded as a known finding; any other (label, origin, sink) triple is reported.",
    "Trusted: go/ssa, call graph; library functions propagate taint from arguments to results and do not log by themselves; *url.Error contains URL and method only. Not decided: a device echoing a secret back.",
    "DESIGN.md section 4 C17, E4"),
+ "C20": ("other",
+   "enumeration of crash obligations: explicit panics (go/ssa), the bounds checks the Go compiler's prove pass cannot eliminate (-d=ssa/check_bce with a build overlay, both toolchains in the thorough tier) mapped to AST expressions and compared as a multiset with an audit table, nil-guard dominance rule for nillable sources, type-assertion audit, acyclicity of the reference graph read from the cmdInfo literals",
+   "Does NOT prove crash-freedom. It decides, on every run, that every potential crash site in the code that handles input files is either proved safe by the compiler, covered by a written invariant in an audit table (with machine checks for the NSX singleton invariant, the compile-time tables, guards on captured slices), or an explicitly listed known finding (31 today, each reproduced with drc; two more were repaired by fix: commits) — so that a new unproven index expression, a removed guard, a new panic, a new unguarded nillable dereference or a reference cycle cannot appear unnoticed.",
+   "Trusted: soundness of the Go compiler's bounds-check elimination; go/ssa; the invariants I1..I6 written in tables/bounds_audit.tsv. Hangs are covered only for the recursive walkers (R20.5).",
+   "DESIGN.md section 4 C20, E5"),
 }
 
 NOT_APPLICABLE = {
